@@ -739,7 +739,10 @@ class Exec:
 
     def _bind_derived(self, derived, entry, count):
         for i, (kind, d) in derived.items():
-            off = sym.mul(d, count)
+            if isinstance(d, tuple) and d and d[0] == "per_iter":
+                off = sym.mul(d[1], sym.binop("/", count, d[2]))
+            else:
+                off = sym.mul(d, count)
             e0 = entry[i]
             if kind == "add":
                 self.env[i] = sym.padd(e0, off) if self._ptr_ids.get(i) else sym.add(e0, off)
@@ -994,6 +997,11 @@ class Exec:
                 lv_for_detect = lv
             derived = self.detect_derived(body, latch_nodes, vid, lv_for_detect)
             per = {i: self._per_step(d, eff_step) for i, (kind, d) in derived.items()}
+            for i, (kind, d) in derived.items():
+                # a step that does not divide the amount (remaining -= 64 while a pointer advances by a block): the amount is
+                # gained once per iteration, i.e. (v - lo)/step times -- an exact quotient, the variable moves in whole steps
+                if per[i] is None and kind == "add" and sym.const_value(eff_step) not in (None, 0):
+                    per[i] = ("per_iter", d, eff_step)
             derived = {i: (derived[i][0], per[i]) for i in derived if per[i] is not None}
             entry = {i: self.env[i] for i in derived}
             self._ptr_ids = getattr(self, "_ptr_ids", {})
@@ -1037,7 +1045,7 @@ class Exec:
                 if latch:
                     eff["latch"] = latch
                 if derived:
-                    eff["derived"] = {self._name_of(i): d for i, (kind, d) in derived.items()}
+                    eff["derived"] = {self._name_of(i): (d[1] if isinstance(d, tuple) and d and d[0] == "per_iter" else d) for i, (kind, d) in derived.items()}
                 if is_ptr:
                     eff["pointer"] = lo
                 if st in ("return", "exit"):
